@@ -15,6 +15,7 @@ from rv.model import codecs as K
 from rv.model.bits import Expect
 from rv.util import B, call, exc_matches, rb
 
+AMBIENT = ['bytealigned']      # an option this property does not depend on: a quarter of the cases run with it switched on
 PROP = 'C14'
 SHARDS = {'quick': 4, 'thorough': 16}
 RULE = ("(1) list programs: dtype from a pool of ~150 fixed-length dtypes (uint/int widths 1-70, le/be/ne, hex/bin/oct, "
